@@ -15,6 +15,9 @@ INJECTIONS = [
     ("crates/samlang-optimization/src/lib.rs", "opt/hooks_lib.rs", "verif_hooks"),
     ("crates/samlang-ast/src/wasm.rs", "ast/wasm_h.rs", "verif_harness"),
     ("crates/samlang-ast/src/lir.rs", "ast/lir_h.rs", "verif_harness"),
+    ("crates/samlang-ast/src/mir.rs", "ast/mir_h.rs", "verif_harness"),
+    ("crates/samlang-compiler/src/hir_lowering.rs", "compiler/stages_h.rs", "verif_harness"),
+    ("crates/samlang-compiler/src/lib.rs", "compiler/hooks_lib.rs", "verif_hooks"),
 ]
 
 RELEASE_ENV = {
